@@ -12,12 +12,13 @@
     mod opcodes the sequence built by emit_muldivmod (pushes, divisor in rcx, MUL / DIV, result moves, pops, the zero-divisor
     test and the jump inside the sequence) leaves the ISA value in the destination, restores rax, rdx and the stack and
     never raises #DE, under the sequence machine X86Seq.v whose instruction lengths are those the encoders are proved to
-    emit; (6) the byte swaps at each width (and / mov / rol16+and / bswap) and the wide load define the ISA value.  The other
-    opcodes (calls: see C08; exit, prologue/epilogue) and what the CPU does with the bytes are exercised by checks/C03.py (every opcode x every register
+    emit; (6) the byte swaps at each width (and / mov / rol16+and / bswap) and the wide load define the ISA value; (7) the
+    epilogue restores the caller's registers and returns eBPF r0 in rax (stack machine X86Stk.v).  The other opcodes (helper
+    calls: C08; local calls: C07; prologue: C09; exit = ret) and what the CPU does with the bytes are exercised by checks/C03.py (every opcode x every register
     pair x boundary immediates / displacements x control-flow shapes x 4 VM kinds) against the interpreter. *)
 From Coq Require Import ZArith List.
-From RbpfV Require Import MachInt Ebpf Isa WellFormed Verifier JitLogicProofs X86Enc JitEncProofs X86Sem X86Seq ClAluProofs ClJmpProofs JitArmsProofs JitMulDivProofs ClMiscProofs JitMiscProofs.
-From RbpfV.gen Require Import JitLogic JitEnc JitArms JitMulDiv JitMisc.
+From RbpfV Require Import MachInt Ebpf Isa WellFormed Verifier JitLogicProofs X86Enc JitEncProofs X86Sem X86Seq ClAluProofs ClJmpProofs JitArmsProofs JitMulDivProofs ClMiscProofs JitMiscProofs X86Stk JitFrameProofs.
+From RbpfV.gen Require Import JitLogic JitEnc JitArms JitMulDiv JitMisc JitFrame.
 Import ListNotations.
 Open Scope Z_scope.
 
@@ -138,6 +139,17 @@ Theorem C03_wide_load : forall lo hi R stk d, - 2 ^ 31 <= lo < 2 ^ 31 -> - 2 ^ 3
              /\ R' d = u64 (u32 lo + u32 hi * 2 ^ 32) /\ forall r, r <> d -> R' r = R r.
 Proof. exact jit_lddw_arm. Qed.
 
+(** the epilogue (the landing of the final exit): with rsp where the prologue left it and the five words saved by the
+    prologue intact, it returns with the caller's rsp, rbp, rbx, r13, r14, r15 and leaves every other register -- rax, which
+    is eBPF r0, the result -- as the program left it (the prologue theorems are in C09) *)
+Theorem C03_epilogue : forall R0, (forall r, 0 <= R0 r < 2 ^ 64) -> 1024 <= R0 4 -> forall R m,
+  R 4 = R0 4 - 40 - (gen_jit_stack_size + 8) -> saved R0 m ->
+  gen_jit_epilogue = removelast gen_jit_epilogue ++ [XRet] /\
+  exists R', krun (removelast gen_jit_epilogue) (R, m) = Some (R', m) /\
+    R' 4 = R0 4 /\ R' 5 = R0 5 /\ R' 3 = R0 3 /\ R' 13 = R0 13 /\ R' 14 = R0 14 /\ R' 15 = R0 15 /\
+    forall r, ~ In r [3; 4; 5; 13; 14; 15] -> R' r = R r.
+Proof. exact jit_epilogue. Qed.
+
 (** non-vacuity of the mul / div / mod theorem: 100 / 7 in rdi, a division by zero, a 32-bit modulo, the empty sequence *)
 Definition C03_regs (r : Z) : Z := if r =? 7 then 100 else if r =? 6 then 7 else if r =? 2 then 2 ^ 40 + 9 else 0.
 Example C03_muldiv_example :
@@ -164,5 +176,6 @@ Print Assumptions C03_muldiv_arms.
 Print Assumptions C03_muldiv_bytes.
 Print Assumptions C03_byte_swaps.
 Print Assumptions C03_wide_load.
+Print Assumptions C03_epilogue.
 Print Assumptions C03_jump_targets.
 Print Assumptions C03_call_targets.
